@@ -55,6 +55,56 @@ def run_for(chk: Check):
     tlapm_check(chk)
     refinement(chk)
     hourly_root(chk)
+    large_domains(chk)
+
+
+def _large_case(case):
+    """One search over a candidate domain far beyond the bounded model (the proof covers the loop for any length; the code's step
+    budget max_iter is a constant the proof abstracts from): the real search classes on lazily built candidate lists, a strictly
+    monotone excess with its threshold at a drawn position, judged by the mirrors of Search.tla's invariants."""
+    import random  # noqa: PLC0415
+
+    from . import doubles, judge  # noqa: PLC0415
+
+    mode, nl, ln, seed = case
+    rnd = random.Random(seed)
+    if mode == "1D":
+        lists = [list(range(1, ln + 1))]
+    else:
+        # list j: a single borehole, then rows of j + 1 boreholes: increasing along the list, last elements increasing with j
+        lists = [[1] + [(j + 1) * k for k in range(2, ln + 1)] for j in range(1, nl + 1)]
+    allc = sorted({c for l in lists for c in l})
+    need = rnd.choice(allc[1:]) - 0.5
+    b = {"mode": mode, "cfg": {"lists": lists, "cap": 0, "cont": False, "flow": "BOREHOLE" if seed % 2 else "SYSTEM"}, "memo": [], "need": need, "rwgrid": 8, "lazy": True}
+    rec = doubles.run_behaviour(b)
+    out = rec["out"]
+    if out["k"] != "sel":
+        return f"{mode} domain of {nl} list(s) x {ln} candidates, {need + 0.5:g} boreholes needed: no design ({out})"
+    v = judge.judge(mode, b["cfg"], rec["oracle"], rec)
+    bad = [k for k in ("PredecessorFails", "FirstFeasibleIfMonotone", "NoLessDrillingEvaluated", "RootUnlessClamped", "FinalExcessNonPositive") if v.get(k) is False]
+    n_sel = lists[out["f"][0] - 1][out["f"][1] - 1]
+    if mode == "1D" and n_sel != need + 0.5:
+        bad.append("first feasible candidate not selected")
+    if bad:
+        return (f"{mode} domain of {nl} list(s) x {ln} candidates, {need + 0.5:g} boreholes needed: selected candidate {out['f']} with {n_sel} boreholes after "
+                f"{sum(1 for e in rec['log'] if e['e'] == 'eval')} evaluations violates {bad}")
+    return None
+
+
+def large_domains(chk: Check):
+    from .core import parallel_map  # noqa: PLC0415
+
+    # 2D: the first list must be longer than the number of lists (the outer search borrows its descriptors: Domains.tla BiRectFirstListLongEnough);
+    # the doubles encode a candidate as list * 1000 + index, hence fewer than 1000 candidates per list
+    sizes = [("2D", 126, 270), ("2D", 60, 64), ("2D", 130, 600), ("2D", 300, 900), ("1D", 1, 999), ("1D", 1, 700)]
+    reps = 3 if tier() == "quick" else 12
+    cases = [(m, nl, ln, chk.seed * 1000 + 17 * k + i) for i, (m, nl, ln) in enumerate(sizes) for k in range(reps)]
+    for c, bad in zip(cases, parallel_map(_large_case, cases, chunksize=1)):
+        chk.traces += 1
+        chk.evaluations += 1
+        if bad:
+            chk.violation(f"C05 large candidate domain: {bad}", {"case": c})
+    chk.note("large_domain_searches", len(cases))
 
 
 def _hourly_root_case(case):
